@@ -249,6 +249,10 @@ def check_stratified_levels(ctx: Ctx) -> None:
                 a, b = symexpr.to_term(v.left, env), symexpr.to_term(v.right, env)
                 q = a / b if a is not None and b is not None else None
         size = symexpr.to_term(fin[0].value, {**env, "n_levels": sp.Symbol("n_levels", positive=True)}) if len(fin) == 1 else None
+        if q is None and len(lv) == 1 and size is not None and "n_samples" in env:
+            # the number of levels is not a floor: round() / ceil() of the quotient can give a design LARGER than requested
+            ctx.ob("14.5-levels", con, False, f"the number of levels `{norm_stmt(lv[0].value, 60)}` must be the floor of the quotient (int(...) or //): rounded to nearest or up, the design has more points than n_samples", node=lv[0], stmt="n_levels is a floor")
+            continue
         if q is None or size is None or "n_samples" not in env:
             raise AnalysisError(f"{con}: n_levels = int(<quotient>) / final_n_samples = <affine in n_levels> not recognised")
         L = sp.Symbol("n_levels", positive=True)
@@ -350,8 +354,22 @@ def check_custom_order(ctx: Ctx) -> None:
     ctx.ob("14.7-variable-order", con, ok, "the user's physical samples are mapped to the unit hypercube with the design space's own transform_vect", node=(ret or [f])[0], stmt="unit samples = transform_vect(samples)")
 
 
+def check_current_bounds(ctx: Ctx) -> None:
+    """14.8: the physical samples are the image of the unit samples under the CURRENT bounds: the design space's cached
+    normalisation data are invalidated by every edit of the bounds (rule groups 2.2/2.3 of C02; algos/design_space.py is
+    an anchor of this property too)."""
+    from gv.props import c02
+    from gv.props.c12 import _Prefixed
+
+    ds = ctx.index.cls("algos/design_space.py", "DesignSpace")
+    view = c02.View(ctx, ds)
+    c02.check_protocols(_Prefixed(ctx, "14.8-current-bounds/"), view)
+    c02.check_norm_cache(_Prefixed(ctx, "14.8-current-bounds/"), view)
+
+
 def run(ctx: Ctx) -> None:
     check_sobol_count(ctx)
+    check_current_bounds(ctx)
     check_custom_order(ctx)
     check_stratified_levels(ctx)
     check_seeds(ctx)
